@@ -25,9 +25,7 @@ import (
 	"fmt"
 	"io"
 	"net"
-	"os"
 	"runtime/debug"
-	"runtime/pprof"
 	"sort"
 	"strings"
 	"sync"
@@ -417,7 +415,7 @@ func runRead(c Case) verdict {
 	}
 	conn := mysql.NewConn(rc)
 	conn.SetSequence(uint8(c.Seq))
-	read := func() (b []byte, err error, same bool) {
+	read := func() (b []byte, err error) {
 		switch c.Reader {
 		case "ReadPacket":
 			b, err = conn.ReadPacket()
@@ -444,7 +442,7 @@ func runRead(c Case) verdict {
 	var err, err2 error
 	var eq bool
 	pm := catch(func() {
-		got, err, _ = read()
+		got, err = read()
 		if err == nil {
 			eq = bytes.Equal(got, payload(c.Len)) // before the pooled buffer is recycled
 		}
@@ -452,7 +450,7 @@ func runRead(c Case) verdict {
 			return
 		}
 		recycle()
-		got2, err2, _ = read()
+		got2, err2 = read()
 		if err2 == nil {
 			got2 = append([]byte(nil), got2...)
 			recycle()
@@ -675,11 +673,6 @@ func selfTest() {
 func main() {
 	gx.Quiet()
 	debug.SetGCPercent(50) // cases hold tens of MiB each; keep the heap tight
-	if pf := os.Getenv("C11_PROFILE"); pf != "" {
-		f, _ := os.Create(pf)
-		pprof.StartCPUProfile(f)
-		defer pprof.StopCPUProfile()
-	}
 	r := ev.Start("C11", "exploration")
 	var rc Case
 	if r.ReplayCase(&rc) {
@@ -705,7 +698,6 @@ func main() {
 	if done < len(all) {
 		r.Capped(fmt.Sprintf("%d of %d cases (all large-payload cases come first in the order)", done, len(all)))
 	}
-	pprof.StopCPUProfile()
 	r.Set("cases_large_payload", len(big))
 	r.Set("cases_small_payload", len(small))
 	r.Set("universe", len(all))
